@@ -441,7 +441,7 @@ def r163(prog, chk):
                 continue
             mentions_v = any(isinstance(n, ast.Name) and n.id == v for n in ast.walk(c.test))
             if mentions_v:
-                d_at = {id(d.binder) for d in prog.reaching(fi, v, c.test)}
+                d_at = {id(d.binder) for d in prog.reaching(fi, v, c.loc)}
                 if d_at != defs_at_sink:
                     unstable.append(c)
                     continue
